@@ -28,6 +28,10 @@ type ChangelogCfg struct {
 	LateRecords bool
 }
 
+// stepBlock is the tape window of one changelog step (the step's own draws plus those of the Row
+// callback); callers reserve stepBlock*MaxSteps+10 slots for a script.
+const stepBlock = 16
+
 type presentRow struct {
 	vals []octosql.Value
 	sec  int
@@ -46,7 +50,7 @@ func GenChangelog(t *Tape, cfg ChangelogCfg) []Msg {
 	for step := 0; step < cfg.MaxSteps; step++ {
 		// one fixed-size block per step, so the shrinker can delete a step;
 		// a zero first slot ends the script
-		t := outer.Block(8)
+		t := outer.Block(stepBlock)
 		if t.Draw(cfg.MaxSteps+1) == 0 {
 			break
 		}
